@@ -77,6 +77,10 @@ def _h8(key):
 
 
 _CHECK = None
+# set in the parent once exploration is over: minimisation, re-execution and the
+# pre-confirmation run always happen in a forked child, so that a case which
+# crashes the interpreter (or leaks state) cannot take the parent with it
+_ALWAYS_ISOLATE = False
 
 
 def seed_globals(case):
@@ -114,7 +118,7 @@ def run_one(check, case):
 	"""Execute one case: in a freshly forked child when the check asks for
 	isolation (state leaked by the code under test must not reach the next
 	case / the minimiser / the parent), else in this process."""
-	if not getattr(check, "isolate_cases", False):
+	if not (getattr(check, "isolate_cases", False) or _ALWAYS_ISOLATE):
 		seed_globals(case)
 		return check.run_case(case)
 	r, w = os.pipe()
@@ -492,6 +496,8 @@ def main(check, argv):
 		print("HARNESS-ERROR: %s" % traceback.format_exc())
 		return 3
 
+	global _ALWAYS_ISOLATE
+	_ALWAYS_ISOLATE = True
 	known = [k for k in load_known() if k.get("property") == check.prop_id]
 	open_known = [k for k in known if k.get("status") == "open"]
 	groups = collections.OrderedDict()
@@ -527,11 +533,17 @@ def main(check, argv):
 			print("minimiser failed (reporting unminimised case): %s" %
 				traceback.format_exc()[-1500:])
 			small = case
-		out = run_one(check, small)
-		vs = [x for x in out.violations if x.klass == v["class"]]
-		if not vs:
-			small, out = case, run_one(check, case)
+		try:
+			out = run_one(check, small)
 			vs = [x for x in out.violations if x.klass == v["class"]]
+			if not vs:
+				small, out = case, run_one(check, case)
+				vs = [x for x in out.violations if x.klass == v["class"]]
+		except (ChildDied, RuntimeError) as e:
+			info["crashes"].append({"leg": rec["leg"], "seed": rec["seed"],
+				"returncode": -1, "tail": "re-execution of a violating case killed the "
+				"interpreter: %s" % str(e)[:300]})
+			continue
 		if not vs:
 			unreproduced.append({"leg": rec["leg"], "seed": rec["seed"],
 				"class": v["class"], "why": "not reproduced in the parent process",
